@@ -1,0 +1,35 @@
+//go:build verif
+
+package jsonapi
+
+// Interface contracts: what clients of Resource / Collection may assume and
+// what implementations owe. Observations are uninterpreted functions of a
+// ghost observation state ($rh) that only mutators change.
+
+//@ uninterp R_attrs(`Int`, Resource) map[string]Attr
+//@ uninterp R_rels(`Int`, Resource) map[string]Rel
+//@ uninterp R_get(`Int`, Resource, string) any
+//@ uninterp R_type(`Int`, Resource) Type
+
+//@ interface Resource.Attrs
+//@ ensures obs: result == R_attrs($rh, self)
+
+//@ interface Resource.Rels
+//@ ensures obs: result == R_rels($rh, self)
+
+//@ interface Resource.GetType
+//@ ensures obs: result == R_type($rh, self)
+//@ ensures attrs: result.Attrs == R_attrs($rh, self)
+//@ ensures rels: result.Rels == R_rels($rh, self)
+
+// Typing invariant of resources (proved of SoftResource under C17, bounded for
+// Wrapper): the id is a string, to-one relationships hold a string, to-many
+// relationships a []string.
+//@ interface Resource.Get
+//@ ensures obs: result == R_get($rh, self, key)
+//@ ensures id-string: key == "id" ==> dyn(result) == type[string]
+//@ ensures to-one: key in R_rels($rh, self) && R_rels($rh, self)[key].ToOne ==> dyn(result) == type[string]
+//@ ensures to-many: key in R_rels($rh, self) && !R_rels($rh, self)[key].ToOne ==> dyn(result) == type[[]string]
+
+//@ interface Resource.Set
+//@ modifies $rh, all
